@@ -1,8 +1,182 @@
-/- driver component stub: replaced by the real component when its model exists -/
+/-
+  driver component `pool` (C18)
+
+    pool predict <W> <failcode> <N1,N2,…> <fault>*      → `ok <seq>|<seq>|…`
+        every outcome sequence the model admits for consecutive `play_many(N1)`, `play_many(N2)`, …
+        on one engine under the fault script, by exhaustive exploration of ALL interleavings of
+        `Tak.Pool.step?`.  A sequence is one word per request, comma separated:
+        `returns` (exactly N, by C18_exact) | `raises` | `hangs`; it ends at the first non-`returns`.
+        faults:  factory:j        worker j's engine factory raises
+                 game:j:k         the k-th game taken by worker j (over all requests) raises
+                 killplay:j:k     worker j is SIGKILLed during its k-th game
+                 killwait:j:r     worker j is SIGKILLed while idle, before request r (1-based) starts
+    pool verdict <N> <fault kind> returned <n> <dups> <carried>
+    pool verdict <N> <fault kind> raised <ms> 0 0
+    pool verdict <N> <fault kind> blocked 0 0 0          → `ok` | `violation <key>`
+    pool stopverdict <W> <exited>                        → `ok` | `violation stop-does-not-join`
+    pool run <N> <W> <failcode> <act>*                   → state after the actions | `disabled <i>`
+-/
 import TakVerif.Driver.Ser
+import TakVerif.Model.Pool
+import Std.Data.HashSet
 
 namespace Tak.Driver.Pool
+open Tak.Pool
 
-def handle : List String → Option String := fun _ => none
+inductive Fault where
+  | factory (j : Nat)
+  | game (j k : Nat)
+  | killplay (j k : Nat)
+  | killwait (j r : Nat)
+  deriving DecidableEq, Repr
+
+/-- exploration state: model state + games taken so far by each worker -/
+structure X where
+  s : State
+  taken : List Nat
+  deriving DecidableEq, Hashable
+
+def parseFault (t : String) : Option Fault :=
+  match t.splitOn ":" with
+  | ["factory", j] => do pure (.factory (← j.toNat?))
+  | ["game", j, k] => do pure (.game (← j.toNat?) (← k.toNat?))
+  | ["killplay", j, k] => do pure (.killplay (← j.toNat?) (← k.toNat?))
+  | ["killwait", j, r] => do pure (.killwait (← j.toNat?) (← r.toNat?))
+  | _ => none
+
+/-- the successors of `x` that the fault script allows (poll excluded) -/
+def succs (c : Cfg) (fs : List Fault) (x : X) : List X :=
+  let parent := [Act.put, Act.recv].filterMap fun a => (step? c x.s a).map fun s' => { x with s := s' }
+  let workers := (List.range c.W).flatMap fun j =>
+    let k := x.taken.getD j 0
+    let mk (a : Act) : List X := ((step? c x.s a).map fun s' => { x with s := s' }).toList
+    let start := if fs.contains (.factory j) then mk (.factoryFail j) else mk (.start j)
+    -- games are counted only for workers the script has a game-indexed fault for
+    let counted := fs.any fun f => match f with
+      | .game j' _ => j' == j | .killplay j' _ => j' == j | _ => false
+    let take := ((step? c x.s (.take j)).map fun s' =>
+      ({ s := s', taken := if counted then x.taken.set j (k + 1) else x.taken } : X)).toList
+    let fin :=
+      if fs.contains (.game j k) then mk (.gameFail j)
+      else if fs.contains (.killplay j k) then
+        (if x.s.ws[j]? = some .playing then mk (.kill j) else [])
+      else mk (.finish j)
+    start ++ take ++ fin ++ mk (.deliver j)
+  parent ++ workers
+
+structure Acc where
+  dones : List X := []
+  raises : Bool := false
+  hangs : Bool := false
+
+/-- worklist exploration of one request; `none` when the fuel runs out -/
+def explore (c : Cfg) (fs : List Fault) : Nat → List X → Std.HashSet X → Acc → Option Acc
+  | 0, [], _, acc => some acc
+  | 0, _ :: _, _, _ => none
+  | _ + 1, [], _, acc => some acc
+  | fuel + 1, x :: rest, seen, acc =>
+    if x.s.phase = .running ∧ x.s.logs = c.N then
+      explore c fs fuel rest seen { acc with dones := x :: acc.dones }
+    else
+      let raisesHere := match step? c x.s .poll with
+        | some s' => s'.phase == .raised
+        | none => false
+      let nxt := succs c fs x
+      let acc := { acc with raises := acc.raises || raisesHere,
+                            hangs := acc.hangs || (nxt.isEmpty && !raisesHere) }
+      let (rest, seen) := nxt.foldl (fun (p : List X × Std.HashSet X) y =>
+        if p.2.contains y then p else (y :: p.1, p.2.insert y)) (rest, seen)
+      explore c fs fuel rest seen acc
+
+def fuel0 : Nat := 4000000
+
+def dedup (l : List String) : List String :=
+  l.foldl (fun acc s => if acc.contains s then acc else acc ++ [s]) []
+
+/-- apply the `killwait` faults of request `r` -/
+def applyKills (c : Cfg) (fs : List Fault) (r : Nat) (x : X) : X :=
+  fs.foldl (fun x f => match f with
+    | .killwait j r' => if r' = r then
+        (match step? c x.s (.kill j) with | some s' => { x with s := s' } | none => x) else x
+    | _ => x) x
+
+/-- outcome sequences for requests `ns` (request index `r`, 1-based) from the start states `xs` -/
+def outcomes (W : Nat) (fc : Int) (fs : List Fault) : List Nat → Nat → List X → Option (List String)
+  | [], _, _ => some [""]
+  | n :: ns, r, xs => do
+    let c : Cfg := { N := n, W := W, failCode := fc }
+    let starts := dedupX (xs.map fun x => applyKills c fs r { x with s := x.s.nextRequest n })
+    let acc ← explore c fs fuel0 starts (Std.HashSet.ofList starts) {}
+    let tail ← if acc.dones.isEmpty then some [] else outcomes W fc fs ns (r + 1) acc.dones
+    let here := (if acc.raises then ["raises"] else []) ++ (if acc.hangs then ["hangs"] else [])
+    let cont := tail.map fun t => if t = "" then "returns" else "returns," ++ t
+    some (dedup (here ++ cont))
+where
+  dedupX (l : List X) : List X := l.foldl (fun acc x => if acc.contains x then acc else x :: acc) []
+
+def sortStrings (l : List String) : List String := (l.toArray.qsort (· < ·)).toList
+
+def parseNats (s : String) : Option (List Nat) := (s.splitOn ",").mapM String.toNat?
+
+def showW : WState → String
+  | .init => "init" | .waiting => "waiting" | .playing => "playing" | .holding => "holding"
+  | .dead k => s!"dead({k})"
+
+def showState (s : State) : String :=
+  s!"todo={s.todo} cmd={s.cmd} games={s.games} logs={s.logs} lost={s.lost} " ++
+  s!"phase={if s.phase = .running then "running" else "raised"} ws={",".intercalate (s.ws.map showW)}"
+
+def parseAct (t : String) : Option Act :=
+  match t.splitOn ":" with
+  | ["put"] => some .put | ["recv"] => some .recv | ["poll"] => some .poll
+  | ["start", j] => j.toNat?.map .start | ["take", j] => j.toNat?.map .take
+  | ["finish", j] => j.toNat?.map .finish | ["deliver", j] => j.toNat?.map .deliver
+  | ["factoryFail", j] => j.toNat?.map .factoryFail | ["gameFail", j] => j.toNat?.map .gameFail
+  | ["kill", j] => j.toNat?.map .kill
+  | _ => none
+
+def runActs (c : Cfg) : State → List Act → Nat → String
+  | s, [], _ => "ok " ++ showState s
+  | s, a :: as, i => match step? c s a with
+    | some s' => runActs c s' as (i + 1)
+    | none => s!"disabled {i}"
+
+def parseKind : String → Option FaultKind
+  | "none" => some .none | "factory" => some .factory | "game" => some .game | "kill" => some .kill
+  | _ => none
+
+def showVerdict : Option String → String
+  | none => "ok"
+  | some k => "violation " ++ k
+
+def handle : List String → Option String
+  | "predict" :: w :: fc :: ns :: faults => do
+    let W ← w.toNat?
+    let fc ← fc.toInt?
+    let ns ← parseNats ns
+    let fs ← faults.mapM parseFault
+    if W = 0 ∨ ns.isEmpty then none
+    let x0 : X := { s := fresh { N := 0, W := W, failCode := fc }, taken := List.replicate W 0 }
+    let out ← outcomes W fc fs ns 1 [x0]
+    some ("ok " ++ "|".intercalate (sortStrings out))
+  | ["verdict", n, kind, what, a, dups, carried] => do
+    let N ← n.toNat?
+    let kind ← parseKind kind
+    let a ← a.toNat?
+    let dups ← dups.toNat?
+    let carried ← carried.toNat?
+    let oc ← match what with
+      | "returned" => some (Outcome.returned a)
+      | "raised" => some (Outcome.raisedAfter a)
+      | "blocked" => some Outcome.blocked
+      | _ => none
+    some (showVerdict (verdict { N := N, fault := kind, outcome := oc, dups := dups, carried := carried }))
+  | ["stopverdict", w, e] => do
+    some (showVerdict (stopVerdict (← w.toNat?) (← e.toNat?)))
+  | "run" :: n :: w :: fc :: acts => do
+    let c : Cfg := { N := ← n.toNat?, W := ← w.toNat?, failCode := ← fc.toInt? }
+    let acts ← acts.mapM parseAct
+    some (runActs c (fresh c) acts 0)
+  | _ => none
 
 end Tak.Driver.Pool
